@@ -80,7 +80,7 @@ CHECKS = {
         note='Assumed, not checked: same calls => same pixels; translation covariance and clipping of golang.org/x/image/vector (assembly, outside go/ssa); power-of-two scale invariance (clause b).',
     ),
     'C17': dict(
-        text='Encoder.Reset from an arbitrary dirty state (any mode, error, pending run, selectors, LOD, flags, buffer contents) is field-equal to a fresh Encoder after the same Reset, '
+        text='Encoder.Reset from an arbitrary dirty state (any mode, error, pending run, selectors, LOD, flags, buffer contents; optionally reached after a real earlier use with custom metadata and an abandoned path) is field-equal to a fresh Encoder after the same Reset, '
              'and K further arbitrary calls + Bytes give identical bytes/errors; Bytes is idempotent; Renderer.Reset from an arbitrary dirty state (optionally reached after a real earlier use: SetLOD with arbitrary bounds, register writes, a gradient paint, an abandoned path) renders a well-formed program like a fresh Renderer.',
         note='Bounds: K = 1 (quick) / 2 (thorough) calls after Reset, Reset with every combination of default/custom viewBox and palette. Field equality after Reset is the inductive argument for longer programs. Determinism: the executor found no read of clock/random/map order on any path.',
     ),
